@@ -75,7 +75,7 @@ def families(rng):
     F.append(("full model parallel x spectral", {"megacomplex": {"s": {"type": "decay-parallel", "compartments": ["a", "b"], "rates": ["k1", "k3"]}, "sp": {"type": "spectral", "shape": {"a": "sh1", "b": "sh2"}}},
                                                  "shape": {"sh1": {"type": "gaussian", "amplitude": "amp1", "location": "l1", "width": "w1"},
                                                            "sh2": {"type": "skewed-gaussian", "amplitude": "amp2", "location": "l2", "width": "w2", "skewness": "sk"}},
-                                                 "dataset": {"d": {"megacomplex": ["s"], "global_megacomplex": ["sp"]}}},
+                                                 "dataset": {"d": {"megacomplex": ["s"], "global_megacomplex": ["sp"], "spectral_axis_scale": 1.01}}},
               base + [["amp1", 3.0, {"vary": False}], ["l1", float(rng.uniform(620, 640))], ["w1", float(rng.uniform(20, 40))], ["amp2", 2.0, {"vary": False}], ["l2", float(rng.uniform(660, 680))],
                       ["w2", float(rng.uniform(20, 30))], ["sk", float(rng.uniform(0.1, 0.4))]], None, True, "parallel"))
     F.append(("two linked datasets + scale", {"megacomplex": {"s": {"type": "decay-parallel", "compartments": ["a", "b"], "rates": ["k1", "k3"]}}, "dataset_groups": {"default": {"link_clp": True}},
